@@ -72,15 +72,17 @@ class RangelistModel(object):
         if len(self.range_l) == 0 or len(other.range_l) == 0:
             return
         
-        rng_i=0
-        while rng_i < len(self.range_l):
-            for r in other.range_l:
+        # Apply one trim range at a time, so that the index is always 
+        # valid when an entry of this list is removed or split
+        for r in other.range_l:
+            rng_i=0
+            while rng_i < len(self.range_l):
                 rng_i = self._intersect(
                     self.range_l,
                     rng_i,
                     self.range_l[rng_i],
                     r)
-            rng_i += 1
+                rng_i += 1
     
     def _intersect(self,
                    ranges,
